@@ -374,7 +374,29 @@ pub fn run(ch: &mut Ch, verbose: bool) -> Outcome {
     if nontrivial {
         out.nontrivial.push(abstract_h.0);
     }
+    {
+        let mut prev: Option<u64> = None;
+        for a in obs.iter() {
+            if let Some(p) = prev {
+                let idle = a.time - p;
+                if idle > e {
+                    stats.hit("fault.time-jump-beyond-expiry");
+                } else if idle > 4 * LAT_MS * MS {
+                    stats.hit("fault.idle-below-expiry");
+                }
+            }
+            prev = Some(a.time);
+        }
+    }
+    for l in &r.lanes {
+        for res in &l.results {
+            if res.status == TStatus::Abandoned {
+                stats.hit("fault.client-crash");
+            }
+        }
+    }
     let noise = log.iter().filter(|a| a.tag.kind == TagKind::Noise).count();
+    stats.add("fault.noise-request", noise as u64);
     if noise >= 1000 {
         stats.hit("probe.c20.1000-or-more-intervening-requests");
     }
